@@ -114,6 +114,16 @@ def build_mdgs(pp, np):
     mdg.compute_geometry()
     mdg.set_boundary_grid_projections()
     out.append(("D: 2-d grid with two co-dimension-2 point couplings", mdg))
+    # E: 2-D, one fracture, 1-d grid COARSENED to a single cell: the mortar grid is a nested refinement of the secondary grid
+    # (mortar -> secondary: integrating weights all 1, averaging weights 1/2)
+    mdg = pp.meshing.cart_grid([np.array([[0.0, 2.0], [1.0, 1.0]])], np.array([3, 2]))
+    g1 = mdg.subdomains(dim=1)[0]
+    coarse = pp.TensorGrid(np.array([0.0, 2.0]))
+    coarse.nodes[1] = 1.0
+    coarse.compute_geometry()
+    mdg.replace_subdomains_and_interfaces({g1: coarse})
+    mdg.compute_geometry()
+    out.append(("E: 2-d single fracture, 1d grid coarsened to one cell (mortar finer than secondary)", mdg))
     return out
 
 
